@@ -72,6 +72,27 @@ func (o *Outcome) Fail(oracle, class, format string, a ...interface{}) {
 	o.V = &Violation{Oracle: oracle, Signature: sig, Msg: fmt.Sprintf(format, a...)}
 }
 
+// TrimTrace keeps the part of a trace that matters: a window around the first line that
+// mentions the violation, else the tail.
+func TrimTrace(tr []string, n int) []string {
+	for i, l := range tr {
+		if strings.Contains(l, "VIOLATION") {
+			lo, hi := i-n+40, i+40
+			if lo < 0 {
+				lo = 0
+			}
+			if hi > len(tr) {
+				hi = len(tr)
+			}
+			return tr[lo:hi]
+		}
+	}
+	if len(tr) > n {
+		return tr[len(tr)-n:]
+	}
+	return tr
+}
+
 // Prop is one property's check inside a world.
 type Prop struct {
 	ID  string
@@ -297,11 +318,7 @@ func batch(t *testing.T, p *Prop, outPath string) {
 			b, _ := json.Marshal(c)
 			fv := FoundViolation{Property: p.ID, Index: idx, Seed: seed, Case: b, Violation: *o.V, LogHash: o.LogHash}
 			if o2 != nil && o2.V != nil {
-				tr := o2.Trace
-				if len(tr) > 400 {
-					tr = tr[len(tr)-400:]
-				}
-				fv.Trace = tr
+				fv.Trace = TrimTrace(o2.Trace, 400)
 			}
 			// keep one violation per distinct signature, at most 8
 			dup := false
@@ -395,11 +412,7 @@ func replay(t *testing.T, p *Prop, file, outPath string) {
 		rr.Reproduced = true
 	}
 	rr.SameHash = o.LogHash == fv.LogHash
-	tr := o.Trace
-	if len(tr) > 400 {
-		tr = tr[len(tr)-400:]
-	}
-	rr.Trace = tr
+	rr.Trace = TrimTrace(o.Trace, 400)
 	writeJSON(outPath, rr)
 }
 
@@ -445,11 +458,7 @@ func shrink(t *testing.T, p *Prop, file, outPath string) {
 	fv.Violation = *o.V
 	fv.LogHash = o.LogHash
 	if ot != nil {
-		tr := ot.Trace
-		if len(tr) > 400 {
-			tr = tr[len(tr)-400:]
-		}
-		fv.Trace = tr
+		fv.Trace = TrimTrace(ot.Trace, 400)
 	}
 	fv.Minimised = true
 	fv.ShrinkLog = log
